@@ -35,10 +35,12 @@ def run(ctx):
                  ("ImageCopyMC", "C03_live.cfg", "termination under fairness (img, 1 fault + cancel, throttle 2)", {"workers": 8, "timeout": 3000})]
     mc, states, trans = cc.run_mc(ctx, runs)
     por = cc.por_crosscheck(ctx) if th else None
+    vac = cc.action_coverage(ctx) if th else None
+    xref = cc.xref_probe(e) if th else None
 
     # 2. scenarios
     scripts = cc.tlc_scripts(e, "C03_gen.cfg", 1500 if th else 200, "tlc")
-    mx = e.matrix(list(e.cat), cc.PAIRS, 12 if th else 5, ["random", "fifo", "ungated"], "mx", full=th)
+    mx = e.matrix(e.shapes, cc.PAIRS, 12 if th else 5, ["random", "fifo", "ungated"], "mx", full=th)
     keyf = [lambda s: (s["shape"], s["pair"]), lambda s: (s["shape"], cc.optsig(s)),
             lambda s: (s["shape"], s["headdigest"], s["refapi_src"], s["refapi_tgt"], s["mount"]),
             lambda s: (s["shape"], s["tag0"], bool(s["init"])), lambda s: (s["pair"], s["mode"]),
@@ -69,6 +71,6 @@ def run(ctx):
                 "target, tag state, schedule); the final raw target is walked independently and compared by sha256 with the "
                 "source; distinct = distinct (configuration, request sequence)",
         "exhaustive": False, "model_vs_code": cc.model_agreement(res), "binding_demos": demos,
-        "reduction_crosscheck_states": por, "entry_points": cc.ENTRY_POINTS,
+        "reduction_crosscheck_states": por, "action_coverage": vac, "xref_deadlock": xref, "entry_points": cc.ENTRY_POINTS,
     })
     return "model_checking", cov, cc.ASSUMPTIONS
